@@ -41,26 +41,31 @@ def base_doc(rng, profile, latlon_p=0.0, sqlite_p=0.15, pickle_p=0.06, fault_kin
     world = gen.gen_world(rng, unit=unit, offset=offset, **world_kw)
     if world["shape"] == "grid" and "half_grid" not in trace_kw and rng.random() < 0.5:
         trace_kw["half_grid"] = True
-    trace = gen.gen_trace(rng, world, **_offset_trace_kw(trace_kw))
-    if offset != (0.0, 0.0):
-        pass  # gen_trace samples along the (already shifted) world
     cfg = gen.gen_config(rng, world, **cfg_kw)
+    if cfg.get("non_emitting_states") and "sparse" not in trace_kw and rng.random() < 0.4:
+        trace_kw["sparse"] = True
+    trace = gen.gen_trace(rng, world, **trace_kw)
     if latlon:
         lat0 = rng.uniform(-58, 58)
         lon0 = rng.uniform(-170, 170)
         world, trace = gen.to_latlon(world, trace, lat0, lon0)
         world["unit"] = unit
-    ops = gen.gen_ops(rng, len(trace), cfg, profile)
+    trace2 = None
+    if profile in ("history", "anyops") and rng.random() < 0.35:
+        # another trace for the same matcher object (re-use of a matcher)
+        trace2 = gen.gen_trace(rng, world, **{k: v for k, v in trace_kw.items() if k != "nobs"})
+    if latlon and trace2 is not None:
+        _, trace2 = gen.to_latlon({"nodes": []}, trace2, lat0, lon0)
+    ops = gen.gen_ops(rng, len(trace), cfg, profile, ntrace2=len(trace2) if trace2 else None)
     faults = gen.gen_faults(rng, len(ops), kinds=fault_kinds)
     if "relist" in fault_kinds and rng.random() < 0.5:
         world = gen.relist(world, rng.randrange(1 << 30))
         faults["relist"] = True
-    return {"kind": "A", "world": world, "trace": trace, "cfg": cfg, "ops": ops, "faults": faults,
-            "backend": backend, "log": "ERROR"}
-
-
-def _offset_trace_kw(kw):
-    return kw
+    d = {"kind": "A", "world": world, "trace": trace, "cfg": cfg, "ops": ops, "faults": faults,
+         "backend": backend, "log": "ERROR"}
+    if trace2 is not None and any(op.get("alt") for op in ops):
+        d["trace2"] = trace2
+    return d
 
 
 def session_sig(doc, sess, extra=""):
@@ -77,9 +82,11 @@ def session_sig(doc, sess, extra=""):
         k = last.op.get("k", sess.k) or 0
         stop = "c" if (not last.obs["empty"] and last.obs["idx"] == k - 1) else ("e" if last.obs["empty"] else "s")
         depth = max([p[2] for p in last.obs["path"]] or [0])
+    w = doc["world"]
+    extra = "%s|%s,%d,%d" % (extra, w.get("shape", "?"), len(w["nodes"]), len(doc["trace"]))
     return "|".join(str(x) for x in (cfg["family"], cfg.get("only_edges", True), doc.get("backend"),
                                      bool(doc["world"].get("latlon")), bool(cfg.get("non_emitting_states")),
-                                     cfg.get("max_lattice_width") is not None, bool(cfg.get("avoid_goingback")),
+                                     cfg.get("max_lattice_width") is not None, bool(cfg.get("avoid_goingback", True)),
                                      kinds, ",".join(fired), sess.restarts, stop, min(depth, 3), extra))
 
 
@@ -102,6 +109,9 @@ def session_stats(sess, ctx=None):
         if o.exc is not None and not o.injected:
             st["uninjected_exceptions"] = st.get("uninjected_exceptions", 0) + 1
             st["exc_" + o.kind + "_" + type(o.exc).__name__] = st.get("exc_" + o.kind + "_" + type(o.exc).__name__, 0) + 1
+    for o in sess.outcomes:
+        if o.kind == "cwd" and o.exc is None:
+            st["probe_continue_with_distance_ok"] = st.get("probe_continue_with_distance_ok", 0) + 1
     if ctx is not None:
         for k, v in ctx.probes.items():
             st["probe_" + k] = v
@@ -182,8 +192,16 @@ def eval_C05(doc):
 
 
 def gen_C09(rng, tier):
-    return base_doc(rng, rng.choice(["anyops", "anyops", "history", "widen", "extend"]), latlon_p=0.05,
-                    world_kw={"linked_p": 0.15})
+    # continue_with_distance only works after an early stop: half of the sessions get an outlier and cut-offs
+    jumpy = rng.random() < 0.5
+    d = base_doc(rng, rng.choice(["anyops", "anyops", "history", "widen", "extend"]) if not jumpy else "anyops",
+                 latlon_p=0.05, world_kw={"linked_p": 0.15},
+                 trace_kw={"outlier_p": 0.7, "nobs": rng.choice([3, 4, 5, 6, 7, 8])} if jumpy else {},
+                 cfg_kw={"only_edges": True} if jumpy else {})
+    if jumpy:
+        unit = d["world"].get("unit", 1.0)
+        d["cfg"].setdefault("max_dist", 2.5 * unit)
+    return d
 
 
 def eval_C09(doc):
@@ -220,7 +238,7 @@ def eval_C01(doc):
         if o.exc is not None or o.ret is None or o.kind not in ("match", "retry", "rematch", "fresh"):
             return
         k = o.op["k"]
-        ref = WalkRef(ctx.store, ctx.model, ctx.trace[:k], with_self)
+        ref = WalkRef(ctx.store, ctx.model, s.cur_trace[:k], with_self)
         ideal = ref.start_states()
         sq = s.simmap.start_query
         given = None
@@ -376,10 +394,11 @@ def eval_C07(doc):
             elif ia == n - 1 and ib == n - 1:
                 ea, eb = a.obs["bestE"], b.obs["bestE"]
                 if ea > eb and not num_equal(ea, eb, 1e-9, 1e-9):
-                    if doc["cfg"].get("avoid_goingback"):
+                    if doc["cfg"].get("avoid_goingback", True):
                         stats["inconclusive_second_order"] = 1
                     else:
-                        vs.append(oa.V("C07/pruned-more-probable-than-unpruned", "pruned=%r unpruned=%r" % (ea, eb), a))
+                        how = "with-non-emitting" if doc["cfg"].get("non_emitting_states", True) else "emitting-only"
+                        vs.append(oa.V("C07/pruned-more-probable-than-unpruned/" + how, "pruned=%r unpruned=%r" % (ea, eb), a))
                 if ea < eb and not num_equal(ea, eb):
                     stats["probe_pruning_lost_optimum"] = 1
             if ia < ib:
@@ -434,7 +453,7 @@ def eval_C08(doc):
         return result(vs, doc, inc, stats={"aborted_by_exception": 1})
     c = compare(a.obs, b.obs)
     if c.startswith("diff"):
-        if doc["cfg"].get("avoid_goingback") and c != "diff:idx":
+        if doc["cfg"].get("avoid_goingback", True) and c != "diff:idx":
             stats["inconclusive_second_order"] = 1
         else:
             vs.append(oa.V("C08/incremental-differs/" + c, "incremental=%r oneshot=%r" % (
@@ -477,7 +496,7 @@ def eval_C10(doc):
             return result(vs, doc, a, stats={"aborted_by_exception": 1})
         c = compare(oa_.obs, ob.obs)
         if c.startswith("diff"):
-            if doc["cfg"].get("avoid_goingback") and c != "diff:idx":
+            if doc["cfg"].get("avoid_goingback", True) and c != "diff:idx":
                 stats["inconclusive_second_order"] = 1
             else:
                 vs.append(oa.V("C10/relist/" + c, "%r vs %r" % ((oa_.obs["idx"], oa_.obs["bestE"], oa_.obs["tail"]),
@@ -637,7 +656,7 @@ def eval_C16(doc):
         c = compare(oa_.obs, oo, rel=rel if kind != "translate" else 1e-7, abs_=1e-12 if kind != "translate" else 1e-9,
                     path_map=ren)
         if c.startswith("diff"):
-            if doc["cfg"].get("avoid_goingback") and c != "diff:idx":
+            if doc["cfg"].get("avoid_goingback", True) and c != "diff:idx":
                 stats["inconclusive_second_order"] = 1
             else:
                 vs.append(oa.V("C16/%s/%s" % (kind, c), "%r vs %r" % ((oa_.obs["idx"], oa_.obs["bestE"], oa_.obs["tail"]),
@@ -738,7 +757,7 @@ def eval_C15(doc):
         vs.append(oa.V("C15/index-differs", "planar=%r latlon=%r" % (oa_.ret[1], ob.ret[1]), oa_))
     elif not oa_.obs["empty"]:
         ea, eb = oa_.obs["bestE"], ob.obs["bestE"]
-        tol = 0.01 * abs(ea) + 0.05
+        tol = 0.0025 * abs(ea) + 0.0125
         stats["max_dev_vs_tol_permille"] = int(1000 * abs(ea - eb) / tol)
         if abs(ea - eb) > tol:
             vs.append(oa.V("C15/probability-differs", "planar=%r latlon=%r tol=%r lat=%r" % (ea, eb, tol, lat0), oa_))
